@@ -67,9 +67,12 @@ CLAIMS.update({
         'symbolic scores (lowest-numbered minimum / Micro maximum, every candidate masked from the unmasked copy, returned matrix is that candidate); '
         'Micro score for the four sizes with symbolic modules; N4 for every dark count of every size (1.4M cases, real float statements extracted from the AST); '
         'evaluate_mask is the sum; _encode glue (evaluation before format/version info). '
-        'N1/N2/N3 loops of mask_scores: deductive tier not built - a labelled BOUNDED differential against the ISO scores (seeded random and planted-pattern matrices, all sizes) stands in and is not counted as proved.',
-   note='Trusted: pyvc + z3, spec/penalty.py, spec/layout.py. Bounded: N1/N2/N3 scoring (evidence.bounded_clauses). Scores assumed < sys.maxsize.',
-   technique='contract-based deductive verification (smt + cc-sym + ground) of masks, selection, N4, Micro score; bounded differential stand-in for the N1-N3 scoring loops',
+        'N1/N2/N3 and the dark-module count of mask_scores for a matrix of ANY size and content: the two nested loops and the while loop of n3_pattern_occurrences are cut at loop invariants '
+        'equating the program variables with the ISO scores written as folds (runs of 5 or more, uniform 2x2 blocks, every - also overlapping - 1011101 occurrence with four light modules or the edge), '
+        'bytearray.find axiomatised, a no-occurrence lemma proved by induction. A labelled BOUNDED differential of the real scores against spec/penalty.py (seeded and planted matrices, all sizes) runs in addition.',
+   note='Trusted: pyvc + z3, spec/penalty.py, spec/layout.py; that the fold form of N1/N2/N3 equals the declarative ISO form is validated exhaustively for lines of up to 14 (thorough 16) modules and all 4x4 matrices only; '
+        'induction schema; find axiom. Scores assumed < sys.maxsize.',
+   technique='contract-based deductive verification (smt + cc-sym + ground) of masks, selection, N1-N4 scoring loops (loop invariants over a symbolic matrix), Micro score; bounded differential in addition',
    design='4/C06'),
  'C11': dict(
    category='proof',
